@@ -4,11 +4,17 @@ and actual values, their JSON syntax (the same syntax the Lean drivers parse, se
 lean/LccModel/Model/MatcherJson.lean), the translation to real matcher objects / Python values, and a
 reference evaluator that uses nothing but Python's own operators.
 
-  Val  : None | True | False | ["i", n] | ["f", h] (the float h/2) | ["s", text] | ["l", [Val...]] | ["d", [[key, Val]...]]
+  Val  : None | True | False | ["i", n] | ["f", h] (the float h/2) | ["nan", source] | ["s", text] | ["l", [Val...]] | ["d", [[key, Val]...]]
+         ["nan", source]: a float NaN, the one value of the domain that is NOT equal to itself.  source = where the object comes from:
+         "math" (math.nan, ONE shared object), "json" (json.loads("NaN"), ONE shared object of the json module), "new" (float("nan"), a
+         new object at every evaluation), "calc" (inf - inf, a new object).  The model has ONE NaN value (`Val.nan`): the source and
+         the identity of the object must mean nothing.
          key : "text" (a str key) | None | True | False | ["i", n] | ["f", h]   -- one dict may mix the types of its keys
   Expr : [constructor, args...]
 """
 import itertools
+import json
+import math
 
 # ------------------------------------------------------------------------------------------------
 # values
@@ -23,6 +29,12 @@ def to_py(v):
         return int(x)
     if t == "f":
         return x / 2.0
+    if t == "nan":
+        return nan_object(x)
+    if t == "x":
+        return foreign_object(x)
+    if t == "tuple":
+        return tuple(to_py(e) for e in x)
     if t == "s":
         return x
     if t == "l":
@@ -30,6 +42,130 @@ def to_py(v):
     if t == "d":
         return {key_to_py(k): to_py(e) for k, e in x}
     raise ValueError(v)
+
+
+class Opaque:
+    """a user-defined value class: equal by content, hashable, unordered, written by str() as its content"""
+
+    def __init__(self, text):
+        self.text = text
+
+    def __eq__(self, other):
+        return isinstance(other, Opaque) and other.text == self.text
+
+    def __hash__(self):
+        return hash(("Opaque", self.text))
+
+    def __str__(self):
+        return self.text
+
+    def __repr__(self):
+        return "Opaque(%r)" % self.text
+
+
+def _foreign_table():
+    import datetime
+    import decimal
+    import uuid
+    return {
+        "date": lambda: datetime.date(2020, 1, 2),
+        "datetime": lambda: datetime.datetime(2020, 1, 2, 3, 4, 5),
+        "decimal": lambda: decimal.Decimal("1.50"),
+        "decimal-nan": lambda: decimal.Decimal("NaN"),
+        "uuid": lambda: uuid.UUID("12345678-1234-5678-1234-567812345678"),
+        "set": lambda: {1},
+        "bytes": lambda: b"ab",
+        "complex": lambda: 1j,
+        "object": lambda: Opaque("thing"),
+        "object-1": lambda: Opaque("1"),
+    }
+
+
+FOREIGN = sorted(_foreign_table())
+
+
+def foreign_object(name):
+    """["x", name]: a value of a class json.dumps has no native rendering for (a new object at every evaluation).  These values
+    are outside the model's `Val` (only the oracle-only pools of C17.inject use them)"""
+    return _foreign_table()[name]()
+
+
+def foreign_text(name):
+    """str() of the foreign value: the text `json.dumps(..., default=str)` would write for it"""
+    return str(foreign_object(name))
+
+
+def is_foreign_val(v):
+    return isinstance(v, list) and len(v) == 2 and v[0] in ("x", "tuple")
+
+
+def has_foreign(v):
+    """a value (foreign class, tuple) or a constructor (match_pattern) outside the model's universe anywhere in the JSON syntax"""
+    if is_foreign_val(v) or (isinstance(v, list) and len(v) == 3 and v[0] == "match_pattern"):
+        return True
+    if isinstance(v, dict):
+        return any(has_foreign(x) for x in v.values())
+    return isinstance(v, list) and any(has_foreign(x) for x in v)
+
+
+NAN_SHARED = ("math", "json")      # sources that hand out ONE object
+NAN_FRESH = ("new", "calc")        # sources that make a new object at every evaluation
+NAN_SOURCES = NAN_SHARED + NAN_FRESH
+
+
+def nan_object(source):
+    if source == "math":
+        return math.nan
+    if source == "json":
+        return json.loads("NaN")
+    if source == "calc":
+        inf = float("inf")
+        return inf - inf
+    return float("nan")
+
+
+def is_nan_val(v):
+    return isinstance(v, list) and len(v) == 2 and v[0] == "nan"
+
+
+def has_nan(v):
+    """a NaN anywhere in the JSON syntax of a value / expression / case"""
+    if is_nan_val(v):
+        return True
+    if isinstance(v, dict):
+        return any(has_nan(x) for x in v.values())
+    return isinstance(v, list) and any(has_nan(x) for x in v)
+
+
+def has_nested_nan(v):
+    """a NaN INSIDE a list / dict value (Python's containers compare and search their items with an identity shortcut)"""
+    if isinstance(v, list) and len(v) == 2 and v[0] in ("l", "d"):
+        return has_nan(v[1])
+    if isinstance(v, dict):
+        return any(has_nested_nan(x) for x in v.values())
+    return isinstance(v, list) and not is_nan_val(v) and any(has_nested_nan(x) for x in v)
+
+
+def fresh_nans(v):
+    """the same value with every NaN taken from a source that makes a new object (used for NaNs inside containers and list
+    arguments: the model has no object identity, so the cases compared with it never put ONE NaN object on both sides of a
+    container comparison — the identity-dependent behaviour is the oracle's business, see C17.inject)"""
+    if is_nan_val(v):
+        return ["nan", v[1] if v[1] in NAN_FRESH else "new"]
+    if isinstance(v, list):
+        return [fresh_nans(x) for x in v]
+    return v
+
+
+def without_nans(v):
+    """the same JSON structure with every NaN replaced by the float 1.5 (streams whose model cannot express identity)"""
+    if is_nan_val(v):
+        return ["f", 3]
+    if isinstance(v, list):
+        return [without_nans(x) for x in v]
+    if isinstance(v, dict):
+        return {k: without_nans(x) for k, x in v.items()}
+    return v
 
 
 def key_to_py(k):
@@ -114,6 +250,8 @@ def gen_scalar(rng):
         return rng.choice([True, False])
     if r < 0.5:
         return ["i", rng.choice([-2, -1, 0, 0, 1, 1, 2, 3, 5, 10, 10 ** 20, -(10 ** 18)])]
+    if r < 0.54:
+        return ["nan", rng.choice(NAN_SOURCES)]
     if r < 0.65:
         return ["f", rng.choice([-3, -1, 0, 1, 2, 3, 4, 5, 7, 20, 2 * 10 ** 9 + 1])]
     return ["s", gen_str(rng)]
@@ -124,9 +262,9 @@ def gen_val(rng, depth=2):
     if depth <= 0 or r < 0.55:
         return gen_scalar(rng)
     if r < 0.79:
-        return ["l", [gen_val(rng, depth - 1) for _ in range(rng.choice([0, 1, 2, 2, 3, 4]))]]
+        return ["l", [fresh_nans(gen_val(rng, depth - 1)) for _ in range(rng.choice([0, 1, 2, 2, 3, 4]))]]
     keys = gen_keys(rng, rng.choice([0, 1, 2, 2, 3]))
-    return ["d", [[k, gen_val(rng, depth - 1)] for k in keys]]
+    return ["d", [[k, fresh_nans(gen_val(rng, depth - 1))] for k in keys]]
 
 
 def literals_of(e):
@@ -160,9 +298,9 @@ def gen_actual(rng, expr):
         return rng.choice(lits)
     if r < 0.85:
         k = rng.choice([1, 2, 3])
-        return ["l", [rng.choice(lits) if rng.random() < 0.8 else gen_scalar(rng) for _ in range(k)]]
+        return ["l", [fresh_nans(rng.choice(lits) if rng.random() < 0.8 else gen_scalar(rng)) for _ in range(k)]]
     keys = gen_keys(rng, rng.choice([1, 2]))
-    return ["d", [[k, rng.choice(lits) if rng.random() < 0.8 else gen_val(rng, 1)] for k in keys]]
+    return ["d", [[k, fresh_nans(rng.choice(lits) if rng.random() < 0.8 else gen_val(rng, 1))] for k in keys]]
 
 
 # ------------------------------------------------------------------------------------------------
@@ -201,7 +339,7 @@ def gen_leaf(rng):
     if r < 0.54:
         return [rng.choice(STRING_LEAVES), gen_str(rng)]
     if r < 0.66:
-        return [rng.choice(LIST_LEAVES), [gen_val(rng, rng.choice([1, 1, 2])) for _ in range(rng.choice([0, 1, 2, 2, 3]))]]
+        return [rng.choice(LIST_LEAVES), [fresh_nans(gen_val(rng, rng.choice([1, 1, 2]))) for _ in range(rng.choice([0, 1, 2, 2, 3]))]]
     if r < 0.74:
         return ["is_between", gen_num(rng), gen_num(rng)]
     if r < 0.82:
@@ -291,8 +429,9 @@ class Env:
     handle on (["ref", l] in value position passes that very object), `objs[i]` the matcher objects built so far (["obj", i] in
     matcher position passes that very object)"""
 
-    def __init__(self, store, objs=None):
+    def __init__(self, store, objs=None, made=None):
         self.store, self.objs = store, ([] if objs is None else objs)
+        self.made = made          # if a list: every value object handed to a constructor is appended (the identity domain of C17.inject)
 
 
 def is_ref(v):
@@ -305,11 +444,16 @@ def to_matcher(e, top=True, env=None):
     live container / the existing matcher object themselves."""
     import lemoncheesecake.matching as M
 
+    def made(x):
+        if env is not None and env.made is not None:
+            env.made.append(x)
+        return x
+
     def val(v):
-        return env.store[v[1]] if env is not None and is_ref(v) else to_py(v)
+        return env.store[v[1]] if env is not None and is_ref(v) else made(to_py(v))
 
     def vals(vs):
-        return env.store[vs[1]] if env is not None and is_ref(vs) else [to_py(v) for v in vs]
+        return env.store[vs[1]] if env is not None and is_ref(vs) else made([made(to_py(v)) for v in vs])
 
     def arg(a):
         return val(a[1]) if a[0] == "val" else to_matcher(a, top=False, env=env)
@@ -333,6 +477,11 @@ def to_matcher(e, top=True, env=None):
         return getattr(M, c)(arg(e[1]))
     if c in STRING_LEAVES:
         return getattr(M, c)(e[1])
+    if c == "match_pattern":
+        # ["match_pattern", text, flags] (outside the model): flags = None -> the pattern given as a str, else re.compile(text, flags)
+        import re
+        made(e[1]), made(e[1].upper()), made(e[1] + "\n")
+        return M.match_pattern(e[1] if e[2] is None else re.compile(e[1], e[2]))
     if c in LIST_LEAVES:
         return getattr(M, c)(vals(e[1]))
     if c == "has_entry":
@@ -362,6 +511,8 @@ def from_py(x):
     if isinstance(x, int):
         return ["i", x]
     if isinstance(x, float):
+        if x != x:
+            return ["nan", "new"]
         if (x * 2) != int(x * 2):
             raise ValueError(x)
         return ["f", int(x * 2)]
@@ -479,8 +630,15 @@ def ref_truth(e, x):
     if c == "has_items":
         return all([to_py(v) in x for v in e[1]])
     if c == "has_only_items":
+        # the two collections are equal as multisets under `==`: every expected item is paired with an item of its own that is
+        # `==` to it, and nothing is left (for self-equal values: equal counts; a NaN is `==` to nothing, so it pairs with nothing)
         items, exp = list(x), [to_py(v) for v in e[1]]
-        return len(items) == len(exp) and all(_count(items, v) == _count(exp, v) for v in items + exp)
+        for v in exp:
+            k = next((i for i, it in enumerate(items) if it == v), None)
+            if k is None:
+                return False
+            del items[k]
+        return not items
     if c == "has_all_items":
         return all([ref_truth(e[1], i) for i in x])
     if c == "is_in":
